@@ -1,5 +1,6 @@
 import Memterm.Props.C03
 import Memterm.Props.Frame
+import Memterm.Spec.C19
 
 /-
   C19 — OSC 0/1/2 set title and icon name to exactly the payload.
@@ -8,22 +9,6 @@ namespace Memterm
 namespace C19
 
 open Gen C03
-
-/-- a payload character: anything but BEL, U+009C and ESC -/
-def okChar (c : Nat) : Prop := c ≠ 7 ∧ c ≠ 0x9c ∧ c ≠ 27
-
-instance (c : Nat) : Decidable (okChar c) := inferInstanceAs (Decidable (_ ∧ _))
-
-/-- an element of an OSC payload: a plain character, or an `ESC x` pair with x ≠ `\` -/
-inductive Atom
-  | plain (c : Nat) (h : okChar c)
-  | pair (x : Nat) (h : x ≠ 92)
-
-def Atom.chars : Atom → List Nat
-  | .plain c _ => [c]
-  | .pair x _ => [27, x]
-
-def payloadOf (atoms : List Atom) : List Nat := (atoms.map Atom.chars).flatten
 
 theorem osc_plain (utf8 : Bool) (code : Nat) (param : List Nat) (c : Nat) (h : okChar c) :
     send utf8 (.oscParam code param) c = (.oscParam code (param ++ [c]), []) := by
@@ -70,11 +55,6 @@ theorem feed_atoms (p : Parser) (code : Nat) (param : List Nat) (atoms : List At
       simp only [payloadOf] at this
       simp only [this, List.nil_append, List.append_assoc, List.cons_append]
       cases p; simp_all
-
-/-- the calls an OSC with code `0`, `1` or `2` makes -/
-def titleCalls (code : Nat) (payload : List Nat) : List Call :=
-  (if code = 48 ∨ code = 49 then [Call.setIconName payload] else []) ++
-  (if code = 48 ∨ code = 50 then [Call.setTitle payload] else [])
 
 theorem oscFinish_eq (code : Nat) (payload : List Nat) :
     oscFinish code (59 :: payload) = titleCalls code payload := by
@@ -153,17 +133,6 @@ theorem title_calls_frame (env : Env) (s : Screen) (t : List Nat) :
     step env s (.setTitle t) = { s with title := t } ∧ step env s (.setIconName t) = { s with icon := t } :=
   ⟨rfl, rfl⟩
 
-/-- executable predicate on the implementation's set_title / set_icon_name transitions -/
-def propC19 (cands : List Nat) (pre : Screen) (c : Call) (post : Screen) : Bool :=
-  match c with
-  | .setTitle t =>
-    post.title == t && decide (post.cursor = pre.cursor) &&
-    sameSettingsB cands { pre with title := t } post && sameCellsB pre post && sameDirtyB pre post
-  | .setIconName t =>
-    post.icon == t && decide (post.cursor = pre.cursor) &&
-    sameSettingsB cands { pre with icon := t } post && sameCellsB pre post && sameDirtyB pre post
-  | _ => true
-
 theorem C19_holds (env : Env) (cands : List Nat) (s : Screen) (c : Call) :
     propC19 cands s c (step env s c) = true := by
   cases c <;> try rfl
@@ -179,3 +148,4 @@ example :
 
 end C19
 end Memterm
+
